@@ -257,7 +257,8 @@ def r6(ctx):
         cb = None
         if cb is None:
             # locate by content
-            cands = [b for b in ctx.w.find(r"TcpListener::accept::\{closure#0\}::") if any(True for _ in b.calls("turmoil::host::Tcp::new_stream"))]
+            # (the registration may live in a helper of the listener: any body of the listener module that calls new_stream)
+            cands = [b for b in ctx.w.find(r"^turmoil::net::tcp::listener::") if any(True for _ in b.calls("turmoil::host::Tcp::new_stream"))]
             cb = cands[0] if cands else None
         if cb is None:
             if ctx.strict:
